@@ -234,5 +234,21 @@ CLAIMED['C13'] = dict(
     technique="TLA+ definitions + partition/complement laws evaluated by TLC; spec->code case replay; code->spec trace "
               "validation by TLC",
     design="3/C13")
+CLAIMED['C12'] = dict(
+    text="RowOps.tla (with PyData.tla for Python's list.insert / padding semantics) defines cut, cutout, movefield, addfield(s), "
+         "addrownumbers, addcolumn, cat, stack, annex, setheader/extendheader/pushheader/rename, convert, fillright/fillleft/"
+         "filldown and values exactly as the code resolves fields (asindices: index priority, names consumed left to right, "
+         "FieldSelectionError otherwise) and pads or trims rows. TLC evaluates the frame-condition laws on every small table "
+         "(headers over two names incl. duplicates, ragged rows of unique cells): one output row per input row, removing the "
+         "inserted cell returns the (squared-up) original row, short rows padded never dropped, movefield preserves field-name "
+         "multiplicities, header functions leave data untouched, non-missing cells untouched by fills. Every generated table x "
+         "argument form (names, indices, mixed, repeated, unknown; insertion index None / 0.. / beyond the end / negative) is "
+         "replayed cell by cell on the real functions and equivalent forms (~90 calls per table); Hypothesis-style random "
+         "ragged tables are recorded as apply events and validated by RowOpsTrace against the same definitions.",
+    note="Negative field SELECTION indices are undocumented and outside the domain; conversions address fields by name and "
+         "are exercised on distinct names; cells are opaque payload (unique ints, None, a missing marker).",
+    technique="TLA+ definitions with Python list semantics + frame-condition laws evaluated by TLC; spec->code cell-by-cell "
+              "replay; code->spec apply-trace validation by TLC",
+    design="3/C12")
 
 NOT_APPLICABLE = {}
